@@ -17,7 +17,7 @@ from ..explore import faults as F
 PID = "C18"
 LEVEL = "fault_enumeration"
 TECHNIQUE = ("exhaustive fault enumeration: an exception injected at every library call site (first and last instance; thorough: every instance) of every export "
-             "x target pre-state x converter-stub behaviour, file-system snapshot oracle")
+             "x target pre-state x converter-stub behaviour, file-system snapshot oracle; plus every export/edit/export history up to depth 2 rounds against a fresh reference")
 LEVEL_TEXT = ("Every function-call boundary inside the library during an export is a crash point; each is exercised (per site in quick, per instance in thorough) for every "
               "export method, target pre-state and converter behaviour, and the complete sandbox (target dir + private temp dir) is compared before/after. "
               "All-or-nothing is a statement about every failure point, which only enumeration of the failure points decides.")
@@ -53,6 +53,77 @@ def make_doc_factory(kind):
         return Doc(rtf_figure=rtf.RTFFigure(figures=[_png_path()], fig_width=2, fig_height=1), rtf_title=rtf.RTFTitle(text="T0"))
 
     return make
+
+
+# operations on the same document object before the observed export (export histories)
+EARLIER = (("rtf", None), ("docx", "ok"), ("pdf", "raise_before"), ("html", "raise_after"), ("pdf", "missing_path"))
+EDITS = ("none", "title_assign_nested", "title_item_inplace", "tail_assign_nested", "body_attr_nested", "replace_title", "replace_df")
+
+
+def apply_edit(doc, name):
+    """Edits a user can make between two exports; every one leaves a valid document."""
+    import polars as pl
+    import rtflite as rtf
+
+    if name == "none":
+        return
+    if name == "title_assign_nested":
+        doc.rtf_title.text = ["T9 edited"]
+    elif name == "title_item_inplace":
+        t = doc.rtf_title.text
+        if isinstance(t, list):
+            t[0] = "T8 in place"
+        else:
+            doc.rtf_title.text = ("T8 in place",)
+    elif name == "tail_assign_nested":
+        comp = doc.rtf_footnote or doc.rtf_source
+        if comp is not None:
+            comp.text = ["F9 edited"]
+        else:
+            doc.rtf_title.text_font_size = [12.0]
+    elif name == "body_attr_nested":
+        if doc.rtf_figure is None:
+            doc.rtf_body.text_justification = [["r"]]
+        else:
+            doc.rtf_figure.fig_align = "left"
+    elif name == "replace_title":
+        doc.rtf_title = rtf.RTFTitle(text="T7 replaced")
+    elif name == "replace_df":
+        if doc.rtf_figure is None:
+            doc.df = doc.df.with_columns(pl.col(doc.df.columns[-1]).cast(pl.Utf8) + "x")
+        else:
+            doc.rtf_title = rtf.RTFTitle(text=["T6", "second line"])
+
+
+def make_prelude(steps):
+    def prelude(doc, out_dir):
+        for i, st in enumerate(steps):
+            if st[0] == "edit":
+                apply_edit(doc, st[1])
+            else:
+                _, m, stub = st
+                tgt = os.path.join(out_dir, f"earlier{i}.{m}")
+                try:
+                    if m == "rtf":
+                        doc.write_rtf(tgt)
+                    else:
+                        getattr(doc, "write_" + m)(tgt, converter=F.Stub(stub))
+                except Exception:  # noqa: BLE001 - a failed earlier export is part of the history
+                    pass
+    return prelude
+
+
+def fresh_reference(kind, steps):
+    """rtf_encode() of a newly built document that received the same edits and no export."""
+    import contextlib
+    import io
+
+    doc = make_doc_factory(kind)([])
+    with contextlib.redirect_stdout(io.StringIO()):
+        for st in steps:
+            if st[0] == "edit":
+                apply_edit(doc, st[1])
+        return doc.rtf_encode()
 
 
 def judge(r, method, stub_mode, pre):
@@ -117,6 +188,29 @@ def eval_case(case: dict) -> dict:
         return r
 
     mode = case["mode"]
+    if mode == "sequence":
+        steps = [tuple(x) for x in case["steps"]]
+        r = F.run_export(make, method, stub, pre, prelude=make_prelude(steps))
+        cnt["runs"] += 1
+        cnt["sequence_runs"] = 1
+        cnt["exports_ok" if r["result"][0] == "ok" else "exports_raised"] += 1
+        where = f"write_{method} doc={kind} target={pre} converter={stub} after {steps}"
+        for sig, detail in judge(r, method, stub, pre):
+            if sig == "encode-count":
+                continue  # how often write_rtf encodes is not observable by the user; the content oracle below decides
+            viol.append({"klass": None, "sig": f"{sig}-{method}-after-history", "detail": f"{where}: {detail}"})
+        if r["result"][0] == "ok":
+            want = fresh_reference(kind, steps).encode("utf-8")
+            got = r["after"].get(r["target_rel"])
+            if method != "rtf":
+                want = b"CONVERTED:" + want
+            if got != want:
+                viol.append({"klass": None, "sig": f"export-differs-from-fresh-encode-{method}-after-history",
+                             "detail": f"{where}: the exported file is not what rtf_encode() of an equal, never exported document returns "
+                                       f"({len(got or b'')} vs {len(want)} bytes)"})
+        else:
+            viol.append({"klass": None, "sig": f"export-raised-after-history-{method}", "detail": f"{where}: {r['result']}"})
+        return {"viol": viol, "nt": any(st[0] == "edit" and st[1] != "none" for st in steps), "evals": 1, "cnt": {k: v for k, v in cnt.items() if v}}
     if mode == "nofault":
         r = one(record=True)
         sites = {}
@@ -152,7 +246,10 @@ def plan(run):
     quick = run.tier == "quick"
     run.rule = ("export method {rtf,docx,html,pdf} x target {absent, exists, two missing directories} x converter stub {9 behaviours} without fault; then an injected Exception and "
                 "an injected BaseException at library call instances (quick: first and last instance of every call site, all three pre-states for write_rtf and write_html, "
-                "seed-rotated pre-state for docx/pdf; thorough: every instance, every pre-state, three documents), plus second faults after swallowed ones. "
+                "seed-rotated pre-state for docx/pdf; thorough: every instance, every pre-state, three documents), plus second faults after swallowed ones; then export histories on one document object: "
+                "earlier export {write_rtf ok, write_docx ok, write_pdf converter raises, write_html converter raises after output, write_pdf converter returns a missing path} x edit "
+                "{none, nested assign on title / footnote-or-source / body attribute, list item in place, title replaced, df replaced} x observed export {4 methods} x 3 documents "
+                "(thorough: two such rounds), judged against rtf_encode() of an equal never-exported document. "
                 "non-trivial = a run in which an injected fault fired, or a no-fault run with a failing/malformed converter or a non-empty target pre-state; distinct = (method, pre, stub, doc, fault point, fault class)")
     run.assumptions = ["crash = exception unwinding at a library function entry", "directories created for a missing parent path are not debris (not listed by the property)"]
     # 1. matrix without faults (also yields the call sites)
@@ -196,6 +293,22 @@ def plan(run):
     run.extra["library_call_instances"] = {f"{k[0]}/{k[3]}": v[0] for k, v in info.items() if k[2] == "absent" and k[1] in (None, "ok")}
     run.extra["call_sites"] = {f"{k[0]}/{k[3]}": v[2] for k, v in info.items() if k[2] == "absent" and k[1] in (None, "ok")}
     run.layer("fault-injection", "mc.props.c18:eval_case", cases, chunk=1, total=len(cases))
+    # 3. export histories: earlier exports (successful and failed) and edits on the same object
+    seq = []
+    for kind in DOCS:
+        for e1 in EARLIER:
+            for ed in EDITS:
+                for m in METHODS:
+                    seq.append({"mode": "sequence", "method": m, "stub": (None if m == "rtf" else "ok"), "pre": "absent", "doc": kind,
+                                "steps": [["export", *e1], ["edit", ed]]})
+        if not quick:
+            for e1 in EARLIER:
+                for ed1 in EDITS[1:]:
+                    for e2 in EARLIER:
+                        for ed2 in EDITS[1:]:
+                            seq.append({"mode": "sequence", "method": "rtf", "stub": None, "pre": "exists", "doc": kind,
+                                        "steps": [["export", *e1], ["edit", ed1], ["export", *e2], ["edit", ed2]]})
+    run.layer("export-histories", "mc.props.c18:eval_case", seq, chunk=10, total=len(seq))
     for need in ("faults_propagated", "faults_swallowed", "exports_ok", "exports_raised"):
         if not run.cnt.get(need):
             run.harness_errors.append({"layer": "vacuity", "case": None, "error": f"counter {need} is zero"})
